@@ -323,8 +323,13 @@ func Harness_C06_AttachDuringClose() {
 	cl, rp := transport.LinkedPeersQSize(8)
 	var aerr error
 	attached := make(chan struct{})
+	addRealm := vBool("late-request-is-AddRealm")
 	go func() {
 		defer close(attached)
+		if addRealm {
+			aerr = r.AddRealm(&RealmConfig{URI: "realm.late", AnonymousAuth: true})
+			return
+		}
 		go func() { cl.Send() <- &wamp.Hello{Realm: realmURI, Details: wamp.Dict{"roles": vAllRoles, "authid": "late"}} }()
 		aerr = r.AttachClient(rp, nil)
 	}()
@@ -335,7 +340,7 @@ func Harness_C06_AttachDuringClose() {
 	vQuiesce()
 	vAssert("attach-during-close-refused", aerr != nil)
 	welcomed := false
-	for {
+	for !addRealm {
 		m, ok := <-cl.Recv()
 		if !ok {
 			break
